@@ -67,6 +67,7 @@ fn main() {
         "C20" => {
             suites_body::c20_serve(&mut em, thorough, seed);
             suites_chunk::c20_chunk(&mut em, thorough, seed);
+            suites_sched::run_suite_with(&mut em, thorough, true, false, true);
         }
         _ => {
             eprintln!("unknown property {}", prop);
